@@ -100,6 +100,11 @@ def cases(ctx):
                         st["pts"] = list(dict.fromkeys(st["pts"]))
                     if st["op"] == "drop_sel" and st["dim"] == "a":
                         st["labels"] = [rng.choice(A_VALS + [0.5, 2.5])]
+                # ... and a label axis whose first labels are one character long and later ones longer
+                if k > 0 and rng.random() < 0.5:
+                    st["b"] = rng.sample(B_VALS + ["uu", "vwx"], len(st["b"]))
+                    if st["op"] == "cases":
+                        st["pts"] = list(dict.fromkeys((a, rng.choice(B_VALS + ["uu", "vwx"])) for a, _ in st["pts"]))
         kind = rng.choice(["float", "multi:s,a3", "int", "intfloat", "intfloat"])
         if kind == "intfloat":
             # whole numbers first, fractional ones later (and dense little grids, so that no hole keeps the dtype wide)
